@@ -359,6 +359,18 @@ def _child(spec: dict[str, Any]) -> dict[str, Any]:
 
     build.build = build_wrapper  # type: ignore[assignment]
     main_mod.build.build = build_wrapper  # type: ignore[attr-defined]
+    # builds executed earlier in this same interpreter (C10: in-process history)
+    pre_results = []
+    for pb in spec.get("pre_builds") or []:
+        pre_results.append(_pre_build(pb))
+    os.chdir(spec["cwd"])
+    if spec.get("pre_builds"):
+        # the build under test starts at the same simulated instant as in a pristine process
+        clock.now_ns = int(spec.get("clock_start_ns", 2_000_000_000 * 10**9))
+        state.n = 0
+        state.log.clear()
+    if spec.get("listdir_seed") is not None:
+        _install_listdir_permutation(spec["listdir_seed"])
     out, err = io.StringIO(), io.StringIO()
     code: Any = 0
     tb = None
@@ -391,8 +403,61 @@ def _child(spec: dict[str, Any]) -> dict[str, Any]:
         "fired": state.fired,
         "clock_end_ns": clock.now_ns,
         "only_once": sorted(once_texts),
+        "pre_results": pre_results,
         **captured,
     }
+
+
+def _pre_build(pb: dict[str, Any]) -> Any:
+    """One earlier build inside the same interpreter: CLI main, mypy.api.run, or a daemon Server."""
+    import mypy.main as main_mod
+
+    os.chdir(pb["cwd"])
+    kind = pb.get("kind", "main")
+    o, e = io.StringIO(), io.StringIO()
+    try:
+        if kind == "main":
+            try:
+                main_mod.main(args=list(pb["argv"]), stdout=o, stderr=e, clean_exit=True)
+                return ["main", 0]
+            except SystemExit as ex:
+                return ["main", ex.code]
+        if kind == "api":
+            import mypy.api
+
+            # (api.run goes through the wrapped process_options as well)
+            r = mypy.api.run(list(pb["argv"]))
+            return ["api", r[2]]
+        if kind == "daemon":
+            import mypy.dmypy_server as ds
+            from mypy.find_sources import create_source_list
+
+            options = ds.process_start_options(pb.get("flags", []), allow_sources=False)
+            options.use_builtins_fixtures = True
+            server = ds.Server(options, os.path.join(pb["cwd"], ".dmypy-pre.json"))
+            sources = create_source_list(pb["files"], options, server.fscache)
+            r = server.check(sources, export_types=False, is_tty=False, terminal_width=80)
+            del server
+            return ["daemon", r.get("status")]
+    except BaseException as ex:  # noqa: BLE001 - an earlier build may fail in any way
+        return [kind, "raised " + type(ex).__name__]
+    return [kind, None]
+
+
+def _install_listdir_permutation(seed: Any) -> None:
+    import random
+
+    import mypy.fscache as fsc
+
+    real = fsc.FileSystemCache.listdir
+    rng = random.Random(str(seed))
+
+    def listdir(self: Any, path: str) -> list[str]:
+        res = list(real(self, path))
+        rng.shuffle(res)
+        return res
+
+    fsc.FileSystemCache.listdir = listdir  # type: ignore[method-assign]
 
 
 def run(spec: dict[str, Any], timeout: float = 120.0) -> dict[str, Any]:
